@@ -153,15 +153,20 @@ let () =
                   | OFromEnc (a, q), _ -> O1 (OStripe (BDispatch a, q))
                   | OViaMatrix, Ok st -> ONew (st.mat, st.slen)
                   | _, _ -> O1 (OConfigureWrap O)) in
+                (* the sequence the buffer holds afterwards *)
                 (match o3, before, m' with
-                 | O2 (O1 (OStripeInto (_, q))), _, _ | O2 (O1 (OStripe (_, q))), _, _ | OFromEnc (_, q), _, _ -> last := q; pad := false
+                 | O2 (O1 (OStripeInto (_, q))), _, _ | O2 (O1 (OStripe (_, q))), _, _ | OFromEnc (_, q), _, _ -> last := q
                  | O2 (O1 _), _, _ | OClone, _, _ -> ()
-                 | O2 (OSample _ | ONew _), _, Ok _ -> last := seq_after1 kn cn !last o2; pad := true
+                 | O2 (OSample _ | ONew _), _, Ok _ -> last := seq_after1 kn cn !last o2
                  (* DenseMatrix::from + new: the identity without look-ahead rows (C04_conversions_spec); with
                     look-ahead rows they become sequence rows and the logical sequence is re-read *)
-                 | OViaMatrix, Ok st, Ok _ ->
-                     if st.swrap <> O then begin last := seq_after3_1 kn cn !last st o3; pad := true end
+                 | OViaMatrix, Ok st, Ok _ -> if st.swrap <> O then last := seq_after3_1 kn cn !last st o3
                  | _, _, _ -> ());
+                (* the padding mode = which checker decides: the extracted Mode.pad_after1 (C04_mode_history);
+                   an op that did not take place (Err / model failure) leaves it *)
+                (match before, m' with
+                 | Ok st, Ok _ -> pad := pad_after1 !pad st o3
+                 | _, _ -> ());
                 if ob = "E" then begin
                   (* StripedSequence::new returned Err(InvalidData): the buffer is unchanged *)
                   (match m' with
@@ -189,6 +194,11 @@ let () =
                 end else begin
                   (match String.split_on_char '|' ob with
                    | [len; wrap; rows; mstr; ix; counts; count1; bm; all; _] ->
+                       (* the harness marks len with `!` when is_empty() <> (len() = 0) or an as_ref() is not the
+                          object / its matrix (hand-written path) *)
+                       let len = if String.length len > 0 && len.[0] = '!' then begin
+                           propfail (Printf.sprintf "op%d is_empty() / as_ref() inconsistent with len() / matrix()" n);
+                           String.sub len 1 (String.length len - 1) end else len in
                        let ilen = int_of_string len and iwrap = int_of_string wrap and irows = int_of_string rows in
                        let imat = matrix_of_string mstr in
                        let ist = { mat = imat; slen = nat_of_int ilen; swrap = nat_of_int iwrap } in
@@ -205,12 +215,39 @@ let () =
                        let res_of_counts str =
                          if str = "P" then Panic O
                          else (try Ok (List.map (fun x -> nat_of_int (int_of_string x)) (split ',' str)) with _ -> Panic O) in
-                       let agree = not (String.length bm > 0 && bm.[0] = '!') in
+                       (* generic versus AVX2 on clones of the buffer: the harness prints both states, the
+                          extracted check_agree (C04_check_agree_sound) decides; a panic of either is a mismatch *)
+                       let bmdetail = ref bm in
+                       let agree =
+                         if bm = "n" then true
+                         else if String.length bm > 0 && bm.[0] = '!' then false
+                         else (match String.split_on_char '~' bm with
+                               | [g; a] ->
+                                   let st_of x = (match String.split_on_char ',' x with
+                                     | [l; w; m] -> { mat = matrix_of_string m; slen = nat_of_int (int_of_string l); swrap = nat_of_int (int_of_string w) }
+                                     | _ -> failwith "bad backend-comparison field") in
+                                   let gs = st_of g and avs = st_of a in
+                                   let okb = check_agree kn cn s gs avs in
+                                   if not okb then begin
+                                     let gm = Array.of_list gs.mat and am = Array.of_list avs.mat in
+                                     bmdetail :=
+                                       if gs.slen <> avs.slen then Printf.sprintf "!len:%d:%d" (int_of_nat gs.slen) (int_of_nat avs.slen)
+                                       else if gs.swrap <> avs.swrap then Printf.sprintf "!wrap:%d:%d" (int_of_nat gs.swrap) (int_of_nat avs.swrap)
+                                       else if Array.length gm <> Array.length am then Printf.sprintf "!rows:%d:%d" (Array.length gm) (Array.length am)
+                                       else begin
+                                         let r = ref 0 in
+                                         while !r < Array.length gm && gm.(!r) = am.(!r) do incr r done;
+                                         if !r < Array.length gm then Printf.sprintf "!row%d:%s:%s" !r (row_string gm.(!r)) (row_string am.(!r))
+                                         else "!both-kernels-wrong-in-the-same-way"
+                                       end
+                                   end;
+                                   okb
+                               | _ -> bmdetail := "!bad-backend-comparison-field"; false) in
                        let o_all = if String.contains all 'P' then Panic O else Ok (seq_of_string all) in
                        let ob = { o_st = ist; o_index = o_index; o_all = o_all; o_counts = res_of_counts counts;
                                   o_count1 = res_of_counts count1; o_agree = agree } in
                        if irows <> List.length imat then propfail (Printf.sprintf "op%d rows()=%d but %d rows listed" n irows (List.length imat))
-                       else if not (if !pad then check_C04_pad kn cn s ob else check_C04 kn cn s ob) then begin
+                       else if not (check_mode kn cn !pad s ob) then begin
                          let lc = ints_string (lin_counts kn s) in
                          if List.exists (fun r -> List.length r <> c) imat then propfail (Printf.sprintf "op%d row-width" n)
                          else if !pad && not (check_pad kn cn s ist) then
@@ -226,7 +263,18 @@ let () =
                          end
                          else if counts <> lc then propfail (Printf.sprintf "op%d count_symbols %s expected %s" n counts lc)
                          else if count1 <> lc then propfail (Printf.sprintf "op%d count_symbol %s expected %s" n count1 lc)
-                         else if not agree then propfail (Printf.sprintf "op%d backend-mismatch %s" n bm)
+                         else if not agree then propfail (Printf.sprintf "op%d backend-mismatch %s" n !bmdetail)
+                         else if (not !pad) && not (check_index_beyond kn cn s ob) then begin
+                           let rc = int_of_nat (seq_rows cn (nat_of_int sl)) * c in
+                           List.iteri (fun j i ->
+                               if i >= sl && ix_ok then begin
+                                 if i < rc && ixs.[j] <> Char.chr (97 + k - 1) then
+                                   propfail (Printf.sprintf "op%d index[%d]=%c in the padding, expected the wildcard" n i ixs.[j])
+                                 else if i >= rc && ixs.[j] <> 'P' then
+                                   propfail (Printf.sprintf "op%d index[%d]=%c beyond the matrix, expected a panic" n i ixs.[j])
+                               end) idx;
+                           propfail (Printf.sprintf "op%d index-beyond-end" n)
+                         end
                          else begin
                            List.iteri (fun j i ->
                                if i < sl && ix_ok then begin
